@@ -180,7 +180,8 @@ func (c *c20) Run(cs core.Case) core.Result {
 		switch {
 		case p.Fmt == "par1":
 			flip(0)
-			if rng.Intn(2) == 0 {
+			if p.Cwd != "set" {
+				// unusable files == usable volumes: exactly at capacity
 				os.Remove(dataPath(2))
 			}
 		case rng.Intn(2) == 0:
